@@ -160,8 +160,11 @@ fn verif_evicted_set_iter() {
         assert!(first.map(|v| v.as_u64()) == Some(hi));
     }
     assert!(set.next().is_none());
+    kani::cover!(two && a != b, "two distinct bits");
+    kani::cover!(!two, "one bit");
 }
 
+// ---- generated by tools/fixup.py: native replay entry ----
 #[cfg(not(kani))]
 #[test]
 fn verif_replay() {
